@@ -9,6 +9,7 @@ package vsimsm
 // reference of the round rules (C08), the timer discipline (C12a) and the signing rules (C02).
 
 import (
+	"errors"
 	"context"
 	"fmt"
 	"io"
@@ -102,6 +103,7 @@ type smWorld struct {
 	prevoteOut     map[string]bool // rounds whose prevote action has reached the mirror
 	decideDueAt    map[string]int // "h/r" -> event count when a precommit decision became due
 	decideDueWhy   map[string]string
+	flakyStore     bool // action store writes fail now and then (C02: a signature whose save failed is not released)
 	clockPasses    bool // virtual wall-clock time may pass while the state machine is busy (exposes its 100 ms guards)
 	eventCount     int
 	signed         map[string]map[string]bool
@@ -321,6 +323,18 @@ func (st smStrategy) EnterRound(ctx context.Context, rv tmconsensus.RoundView, o
 		case out <- p:
 		default:
 		}
+		if w.s.Pct("strategy-proposes-again", 20) {
+			// a strategy that retries or changes its mind puts a second proposal on the round's channel
+			// (the channel has room for one): the key must not sign two headers for one round
+			go func() {
+				w.s.ParkID("sm", "strat", "second-proposal")
+				select {
+				case out <- tmconsensus.Proposal{DataID: fmt.Sprintf("local-data-%d-%d-again", rv.Height, rv.Round)}:
+					w.s.Probe("second_proposal_offered")
+				default:
+				}
+			}()
+		}
 	}
 	return nil
 }
@@ -528,24 +542,51 @@ type smActionStore struct{ w *smWorld }
 
 func (a smActionStore) SaveProposedHeaderAction(ctx context.Context, ph tmconsensus.ProposedHeader) error {
 	a.w.preSave("proposal", string(ph.Signature))
-	err := a.w.aStore.SaveProposedHeaderAction(ctx, ph)
+	var err error
+	if a.w.storeFails("proposal") {
+		err = errors.New("injected action store write failure")
+	} else {
+		err = a.w.aStore.SaveProposedHeaderAction(ctx, ph)
+	}
 	a.w.recSave("proposal", string(ph.Signature), err)
 	a.recorded(ctx, ph.Header.Height, ph.Round, "proposal", string(ph.Signature), err)
 	return err
 }
 func (a smActionStore) SavePrevoteAction(ctx context.Context, pk gcrypto.PubKey, vt tmconsensus.VoteTarget, sig []byte) error {
 	a.w.preSave("prevote", string(sig))
-	err := a.w.aStore.SavePrevoteAction(ctx, pk, vt, sig)
+	var err error
+	if a.w.storeFails("prevote") {
+		err = errors.New("injected action store write failure")
+	} else {
+		err = a.w.aStore.SavePrevoteAction(ctx, pk, vt, sig)
+	}
 	a.w.recSave("prevote", string(sig), err)
 	a.recorded(ctx, vt.Height, vt.Round, "prevote", string(sig), err)
 	return err
 }
 func (a smActionStore) SavePrecommitAction(ctx context.Context, pk gcrypto.PubKey, vt tmconsensus.VoteTarget, sig []byte) error {
 	a.w.preSave("precommit", string(sig))
-	err := a.w.aStore.SavePrecommitAction(ctx, pk, vt, sig)
+	var err error
+	if a.w.storeFails("precommit") {
+		err = errors.New("injected action store write failure")
+	} else {
+		err = a.w.aStore.SavePrecommitAction(ctx, pk, vt, sig)
+	}
 	a.w.recSave("precommit", string(sig), err)
 	a.recorded(ctx, vt.Height, vt.Round, "precommit", string(sig), err)
 	return err
+}
+
+// storeFails: in a tenth of the runs an action store write fails now and then (a full or failing disk).
+// A signature whose save failed must not be released (C02); what the state machine does next (it
+// stops, as documented for store errors) is not judged here.
+func (w *smWorld) storeFails(kind string) bool {
+	if !w.flakyStore || !w.s.Pct("action-store-write-fails", 15) {
+		return false
+	}
+	w.s.Fault("action_store_write_failed")
+	w.event("fault: the action store fails to record the %s", kind)
+	return true
 }
 
 // recorded (C02): the action store is what keeps the validator from signing twice across restarts, so
@@ -658,6 +699,7 @@ func runSM(s *vsimcore.Sim, p vsimcore.Params) vsimcore.RunInfo {
 	targetHeights := uint64(2 + s.Choose("heights", 2))
 	lateStart := s.Pct("network-ahead-at-entry", 40) // the SM may enter rounds whose votes are already present
 	w.clockPasses = s.Pct("wall-clock-passes", 35)
+	w.flakyStore = w.oracles["C02"] && s.Pct("flaky-action-store", 25)
 	log := slog.New(slog.NewTextHandler(io.Discard, &slog.HandlerOptions{Level: slog.LevelError + 8}))
 
 	s.AttachSelect()
